@@ -30,22 +30,25 @@ const (
 	Dangling    // symbolic link whose target does not exist
 	LnX         // symbolic link to a valid Spec file (device x) kept outside the Spec directories
 	SchemaBad   // loads without a Spec validator, refused by the builtin schema (hook timeout -1): only for checks that install the schema
+	V3          // valid Spec of a third vendor whose class is the one of X (vendor3.net/cls, device x): a class shared by two vendors
+	HardX       // hard link to one valid Spec file (device x) per directory, kept outside the Spec directories: two such slots of a directory are two names of ONE file - and two definitions all the same
 	NKinds
 )
 
-var KindNames = []string{"absent", "X", "XY", "Y", "V2", "SYN", "SEM", "EMPTY", "DANGLING", "LNX", "SCHEMA-BAD"}
+var KindNames = []string{"absent", "X", "XY", "Y", "V2", "SYN", "SEM", "EMPTY", "DANGLING", "LNX", "SCHEMA-BAD", "V3", "HARDLINK-X"}
 
 func (k Kind) String() string { return KindNames[k] }
 
 const (
 	Kind1 = "vendor1.com/cls"
 	Kind2 = "vendor2.org/other"
+	Kind3 = "vendor3.net/cls"
 )
 
 // Devices defined by a kind (qualified names).
 func Devices(k Kind) []string {
 	switch k {
-	case X, LnX:
+	case X, LnX, HardX:
 		return []string{Kind1 + "=x"}
 	case XY:
 		return []string{Kind1 + "=x", Kind1 + "=y"}
@@ -53,18 +56,22 @@ func Devices(k Kind) []string {
 		return []string{Kind1 + "=y"}
 	case V2:
 		return []string{Kind2 + "=x"}
+	case V3:
+		return []string{Kind3 + "=x"}
 	}
 	return nil
 }
 
-func Valid(k Kind) bool { return (k >= X && k <= V2) || k == LnX }
+func Valid(k Kind) bool { return (k >= X && k <= V2) || k == LnX || k == HardX || k == V3 }
 
 func VendorClass(k Kind) (string, string) {
 	switch k {
-	case X, XY, Y, LnX:
+	case X, XY, Y, LnX, HardX:
 		return "vendor1.com", "cls"
 	case V2:
 		return "vendor2.org", "other"
+	case V3:
+		return "vendor3.net", "cls"
 	}
 	return "", ""
 }
@@ -88,6 +95,8 @@ func Content(k Kind, name, marker string) []byte {
 		doc = map[string]any{"cdiVersion": "0.5.0", "kind": Kind1, "devices": []any{dev("y")}, "containerEdits": map[string]any{"env": []any{"SPECSRC=" + marker}}}
 	case V2:
 		doc = map[string]any{"cdiVersion": "0.5.0", "kind": Kind2, "devices": []any{dev("x")}, "containerEdits": map[string]any{"env": []any{"SPECSRC=" + marker}}}
+	case V3:
+		doc = map[string]any{"cdiVersion": "0.5.0", "kind": Kind3, "devices": []any{dev("x")}, "containerEdits": map[string]any{"env": []any{"SPECSRC=" + marker}}}
 	case Syn:
 		if strings.HasSuffix(name, ".json") {
 			return []byte(`{"cdiVersion": "0.5.0", "kind": "` + Kind1 + `", "devices": [`)
@@ -185,6 +194,23 @@ func WriteSlot(root, dir, name string, k Kind) error {
 		}
 		return os.Symlink(target, p)
 	}
+	if k == HardX {
+		_ = os.Remove(p)
+		tdir := filepath.Join(root, "linktargets")
+		if err := os.MkdirAll(tdir, 0o755); err != nil {
+			return err
+		}
+		target := filepath.Join(tdir, dir+"-hardlinked.json")
+		if _, err := os.Lstat(target); err != nil {
+			if err := os.WriteFile(target, Content(X, "hardlinked.json", dir+"/+hardlinked"), 0o644); err != nil {
+				return err
+			}
+		}
+		return os.Link(target, p)
+	}
+	if fi, err := os.Lstat(p); err == nil && fi.Mode().IsRegular() {
+		_ = os.Remove(p) // never write through a name that may be a hard link to a shared file
+	}
 	return os.WriteFile(p, Content(k, name, dir+"/"+name), 0o644)
 }
 
@@ -260,7 +286,11 @@ func Resolve(dirList []string, t *Tree, abs func(dir string) string) Resolution 
 				r.SpecPaths[v] = append(r.SpecPaths[v], path)
 			}
 			for _, q := range Devices(k) {
-				defs[q] = append(defs[q], def{pos, path, d + "/" + name})
+				marker := d + "/" + name
+				if k == HardX {
+					marker = d + "/+hardlinked"
+				}
+				defs[q] = append(defs[q], def{pos, path, marker})
 			}
 		}
 	}
